@@ -97,15 +97,24 @@ def distribute(
 
     # Place computations with hosting costs == 0
     # For SECP, this assign actuators var and factor to the right device.
+    # These computations also count against the capacity of their agent.
     fixed_mapping = {}
+    fixed_footprint = defaultdict(lambda: 0)
     for comp in computation_graph.node_names():
-        for agent in agentsdef:
-            if agent.hosting_cost(comp) == 0:
-                fixed_mapping[comp] = (
-                    agent.name,
-                    computation_memory(computation_graph.computation(comp)),
-                )
+        free_agents = [a for a in agentsdef if a.hosting_cost(comp) == 0]
+        if not free_agents:
+            continue
+        footprint = computation_memory(computation_graph.computation(comp))
+        for agent in free_agents:
+            if fixed_footprint[agent.name] + footprint <= agent.capacity:
+                fixed_mapping[comp] = (agent.name, footprint)
+                fixed_footprint[agent.name] += footprint
                 break
+        else:
+            raise ImpossibleDistributionException(
+                f"Impossible Distribution, not enough capacity to host {comp} "
+                f"on {[a.name for a in free_agents]} (hosting cost 0)"
+            )
 
     # Sort computation by footprint, but add a random element to avoid sorting on names
     computations = [
